@@ -69,6 +69,46 @@ CONTEXTS = ["{}", "1{}2", "({})", "(a|{})", "[{}|2]", "[1|{}", "{{{}|1}}", "λ{}
 SYNTAX_CHARS = list("|;])}⟩Xxv⁽&~ßƒɖ₌‡₍≬[({λƛ'µ⟨@ #`\\»«")
 
 
+def py_shape(src):
+    """structure of the Python emitted for a program, with what a literal pushes masked out: the arguments of every
+    stack.append(...) are replaced by a placeholder and generated names are numbered in order of appearance.
+    Two programs that differ only in one literal's payload must have the same shape."""
+    import ast
+    from vyxal.transpile import transpile
+
+    try:
+        code = transpile(src)
+    except Exception as e:  # noqa
+        return f"transpile raised {type(e).__name__}"
+    import warnings
+
+    try:
+        with warnings.catch_warnings():
+            warnings.simplefilter("ignore")
+            tree = ast.parse(code)
+    except SyntaxError as e:
+        return f"emitted Python does not parse: {e.msg}"
+    names = {}
+
+    def norm(nm):
+        m = re.match(r"(_lambda_|VAR_LOOP)[0-9a-f]{8,}", nm)
+        if not m:
+            return nm
+        return names.setdefault(nm, f"{m.group(1)}{len(names)}")
+
+    for n in ast.walk(tree):
+        if isinstance(n, ast.Call) and ast.unparse(n.func) == "stack.append":
+            n.args, n.keywords = [ast.Name(id="PUSHED", ctx=ast.Load())], []
+    for n in ast.walk(tree):
+        if isinstance(n, ast.Name):
+            n.id = norm(n.id)
+        elif isinstance(n, ast.FunctionDef):
+            n.name = norm(n.name)
+        elif isinstance(n, ast.Attribute) and isinstance(n.value, ast.Name):
+            n.value.id = norm(n.value.id)
+    return ast.dump(tree)
+
+
 def replay_lexer(source):
     """-> witness dict if real tokenise disagrees with the specification lex on `source`"""
     from contracts import lexspec
